@@ -60,6 +60,15 @@ def gen_scenarios(seed, tier):
     from props import C07, C08, C09
     others = {"throttle": C07.gen_scenarios(seed + 78, tier), "poll": C08.gen_scenarios(seed + 79, tier),
               "timeout": C09.gen_scenarios(seed + 80, tier)}
+    # micro-scenarios: one derived future, its input cancelled by someone else while a client cancels the derived future itself
+    # (two threads, a few dozen yield points: cheap, so many schedules - window ("hold") ones for two thirds of them)
+    rng2 = random.Random(seed * 7368787 + 33)
+    for i in range(n // 2):
+        d = gen_foreign(rng2, 500000 + i)
+        d.update(form=rng2.choice(["map", "flat_map", "timeout", "map"]), how=rng2.choice(["cancel", "cancel", "cancel", "ok", "err"]),
+                 racing_cancel=True, mode=rng2.choice(["hold", "hold", "bnd", "random"]), p_switch=rng2.choice([0.0, 0.05, 0.3]),
+                 trace_lines=True)
+        yield d
     for i in range(n):
         # the other three worker loops: the single-layer scenarios of C07 / C08 / C09 with their "a sleeping worker has nothing to
         # do / time never passes a due time" monitors and their replays (clause: no lost wake-up in ANY worker loop)
@@ -116,8 +125,10 @@ def gen_scenarios(seed, tier):
 def gen_foreign(rng, i):
     d = dict(kind="foreign", idx=i, family="foreign", form=rng.choice(["map", "flat_map", "zip", "or", "and", "nocancel", "proxy", "timeout", "sequence"]),
              how=rng.choice(["cancel", "cancel", "ok", "err"]), second=rng.choice(["cancel", "ok", "never"]),
-             seed=rng.randrange(1 << 30))
+             racing_cancel=rng.random() < 0.5, seed=rng.randrange(1 << 30))
     d.update(schedule_modes(rng))
+    if d["racing_cancel"] and rng.random() < 0.5:
+        d.update(mode="hold", p_switch=rng.choice([0.0, 0.02, 0.1]), trace_lines=True)
     return d
 
 
@@ -165,6 +176,13 @@ def run_foreign(desc):
         ts = [s.spawn(lambda: fin(a, desc["how"], 1), name="ca")]
         if two:
             ts.append(s.spawn(lambda: fin(b, desc["second"], 0 if desc["form"] == "and" else 2), name="cb"))
+        if desc.get("racing_cancel"):
+            # a client cancels the derived future while its input is being cancelled / completed by someone else: whatever
+            # cancel() answers, the derived future must not be left pending once its input is terminal
+            def client_cancel():
+                s.yield_point("api")
+                st["cancel_result"] = out.cancel()
+            ts.append(s.spawn(client_cancel, name="cc"))
         for ct in ts:
             if ct.state != "done":
                 s.block(lambda ct=ct: ct.state == "done", None, ("cjoin", ct.tid))
